@@ -137,7 +137,7 @@ func (e *Engine) calleeFunc(call *ast.CallExpr) *types.Func {
 	return nil
 }
 
-var pureExternalPrefixes = []string{"fmt.", "errors.", "strings.", "strconv.", "bytes.", "encoding/hex.", "encoding/binary.",
+var pureExternalPrefixes = []string{"(error).Error", "(*github.com/massnetorg/mass-core/txscript.Engine).", "fmt.", "errors.", "strings.", "strconv.", "bytes.", "encoding/hex.", "encoding/binary.",
 	"(encoding/binary.", "github.com/massnetorg/mass-core/logging.", "math.", "sort.Search", "unicode.", "time.", "(time.",
 	"encoding/json.Marshal", "(*encoding/json", "runtime/debug.", "os.Getenv", "crypto/sha256.", "crypto/sha512.", "crypto/subtle.",
 	"(github.com/massnetorg/mass-core/massutil.Amount).", "github.com/massnetorg/mass-core/massutil.", "(github.com/massnetorg/mass-core/massutil/safetype",
